@@ -255,6 +255,39 @@ func childC12(a []string) string {
 		if r.Bool() {
 			c.Close()
 		}
+	case "unsubscribe-and-leave":
+		// many clients that subscribe, send their unsubscriptions without waiting for the answers and hang up at once:
+		// the end of the connection meets the removals half-way
+		n := 400
+		for i := 0; i < n; i++ {
+			c, err := w.rawConn()
+			if err != nil {
+				return w.probe()
+			}
+			id := uint32(100)
+			for k := 0; k < 8; k++ {
+				id++
+				c12Frame(c, qnet.Call, 2, 1, 0, id, append(append(le32(1), le32(102)...), le64(uint64(7000+k))...))
+			}
+			// the subscriptions are made once their answers are there
+			buf := make([]byte, 4096)
+			got := 0
+			c.SetReadDeadline(time.Now().Add(500 * time.Millisecond))
+			for got < 8*36 {
+				m, err := c.Read(buf)
+				if err != nil {
+					break
+				}
+				got += m
+			}
+			for k := 0; k < 8; k++ {
+				id++
+				c12Frame(c, qnet.Call, 2, 1, 1, id, append(append(le32(1), le32(102)...), le64(uint64(7000+k))...))
+			}
+			time.Sleep(time.Duration(r.Intn(400)) * time.Microsecond)
+			c.Close()
+		}
+		time.Sleep(100 * time.Millisecond)
 	case "tracing":
 		// a client turns the tracing of the objects on and subscribes to their trace signal — more than once, while the
 		// tracing is on — and goes on calling: every traced message makes events for the subscribers of the trace signal
@@ -540,7 +573,7 @@ func runC12(r *Rand, tier string, o *Out) {
 	if tier == "thorough" {
 		per = 12
 	}
-	for _, sc := range []string{"valid", "subscriptions", "raw", "truncated", "tracing", "lengths", "flood-reading", "flood-posts", "terminate-busy", "terminate-other", "deep-signature", "disconnects"} {
+	for _, sc := range []string{"valid", "subscriptions", "raw", "truncated", "tracing", "unsubscribe-and-leave", "lengths", "flood-reading", "flood-posts", "terminate-busy", "terminate-other", "deep-signature", "disconnects"} {
 		for i := 0; i < per; i++ {
 			line := fmt.Sprintf("c12.run %s %d", sc, r.U64()>>1)
 			if out := o.Do("P", line, true); out != "ok" {
